@@ -442,6 +442,79 @@ if block_after(mdsrc, r"pub fn by_addr\(&self\) -> impl Iterator<Item = &Minidum
         "self.modules_by_addr .iter() .map(move |&(_, index)| &self.modules[index])":
     die(UBA + ": no longer the sorted vector in order")
 
+# ============================================================================ the range-map crate (third party, version from Cargo.lock)
+import glob
+lock = read("Cargo.lock")
+mv = re.search(r'name = "range-map"\nversion = "([0-9.]+)"', lock)
+if not mv:
+    die("Cargo.lock: range-map not found")
+cargo_home = os.environ.get("CARGO_HOME") or os.path.expanduser("~/.cargo")
+cands = sorted(glob.glob(os.path.join(cargo_home, "registry", "src", "*", "range-map-" + mv.group(1), "src", "lib.rs")))
+if not cands:
+    die("range-map %s: source not found under %s/registry/src" % (mv.group(1), cargo_home))
+rmsrc = open(cands[0]).read()
+RMN = "range-map %s " % mv.group(1)
+if not re.search(r"#\[derive\(Copy, Clone, Hash, PartialEq, PartialOrd, Eq, Ord\)\]\s*pub struct Range<T> \{\s*pub start: T,\s*pub end: T,\s*\}", rmsrc):
+    die(RMN + "Range<T> is no longer {start, end} with derived (lexicographic) Ord")
+E_RM = {"start": "s", "end": "e", "self.start": "(fst r)", "self.end": "(snd r)", "other.start": "(fst o)", "other.end": "(snd o)", "x": "x"}
+RN = RMN + "Range::new"
+rn = match("if <l:opd> <op:cmp> <r:opd> { panic!(\"Ranges must be ordered\"); } Range { start: start, end: end, }",
+           block_after(rmsrc, r"pub fn new\(start: T, end: T\) -> Range<T> \{", RN), RN)
+RC = RMN + "Range::contains"
+rc = match("<a_l:opd> <a_op:cmp> <a_r:opd> && <b_l:opd> <b_op:cmp> <b_r:opd>",
+           block_after(rmsrc, r"pub fn contains\(&self, x: T\) -> bool \{", RC), RC)
+RI = RMN + "Range::intersects"
+ri = match("<a_l:opd> <a_op:cmp> <a_r:opd> && <b_l:opd> <b_op:cmp> <b_r:opd>",
+           block_after(rmsrc, r"pub fn intersects\(&self, other: &Self\) -> bool \{", RI), RI)
+RP = RMN + "PartialOrd<T> for Range<T>"
+rp = match("if <a_l:opd> <a_op:cmp> *x { Some(Ordering::Less) } else if <b_l:opd> <b_op:cmp> *x { Some(Ordering::Greater) } else { Some(Ordering::Equal) }",
+           block_after(rmsrc, r"fn partial_cmp\(&self, x: &T\) -> Option<Ordering> \{", RP), RP)
+RT = RMN + "RangeMap::try_from_iter"
+if block_after(rmsrc, r"pub fn try_from_iter<I: IntoIterator<Item = \(Range<T>, V\)>>\(\s*iter: I,\s*\) -> Result<RangeMap<T, V>, OverlapError<T, V>> \{", RT) != \
+        ("let mut vec: Vec<_> = iter.into_iter().collect(); vec.sort_by(|x, y| x.0.cmp(&y.0)); let mut ret = RangeMap { elts: vec }; "
+         "let discarded = ret.normalize(); if discarded.is_empty() { Ok(ret) } else { Err(OverlapError { non_overlapping: ret, discarded: discarded, }) }"):
+    die(RT + " is no longer sort_by(range) + normalize + Err when something was discarded")
+RG = RMN + "RangeMap::get"
+if block_after(rmsrc, r"pub fn get\(&self, x: T\) -> Option<&V> \{", RG) != \
+        "self.elts .binary_search_by(|r| r.0.partial_cmp(&x).unwrap()) .ok() .map(|idx| &self.elts[idx].1)":
+    die(RG + " is no longer binary_search_by(range vs point)")
+RNZ = RMN + "RangeMap::normalize"
+nz = match("let mut vec = Vec::with_capacity(self.elts.len()); let mut discarded = Vec::new(); mem::swap(&mut vec, &mut self.elts); "
+           "for (range, val) in vec.into_iter() { if let Some(&mut (ref mut last_range, ref last_val)) = self.elts.last_mut() { "
+           "if <a_l:opd> <a_op:cmp> <a_r:opd> && &val != last_val { discarded.push((range, val)); continue; } "
+           "if <b_l:opd> <b_op:cmp> <b_r:opd>.saturating_add(T::one()) && &val == last_val { "
+           "last_range.end = max(<m_l:opd>, <m_r:opd>); continue; } } self.elts.push((range, val)); } discarded",
+           block_after(rmsrc, r"fn normalize\(&mut self\) -> Vec<\(Range<T>, V\)> \{", RNZ), RNZ)
+rm_defs = ("(* %s *)\n"
+           "Definition g_range_new (s e : Z) : outcome range := if %s then Panic PANIC_G_RANGE_NEW else Ret (s, e).\n"
+           "(* %s *)\n"
+           "Definition g_contains (r : range) (x : Z) : bool := %s && %s.\n"
+           "(* %s *)\n"
+           "Definition g_intersects (r o : range) : bool := %s && %s.\n"
+           "(* %s *)\n"
+           "Definition g_range_cmp_pt (r : range) (x : Z) : ordering :=\n"
+           "  if %s then OLess else if %s then OGreater else OEqual.\n"
+           "(* %s: one iteration; state = (elts reversed, discarded reversed) *)\n"
+           "Definition g_norm_step {V : Type} (eqb : V -> V -> bool) (st : list (range * V) * list (range * V)) (rv : range * V) :=\n"
+           "  let '(acc, disc) := st in\n"
+           "  match acc with\n"
+           "  | [] => ([rv], disc)\n"
+           "  | (lr, lv) :: acc' =>\n"
+           "      let '(r, v) := rv in\n"
+           "      if %s && negb (eqb v lv) then (acc, rv :: disc)\n"
+           "      else if (%s %s (sat_add 64 %s 1)) && eqb v lv\n"
+           "           then (((fst lr, Z.max %s %s), lv) :: acc', disc)\n"
+           "           else (rv :: acc, disc)\n"
+           "  end.\n"
+           % (RN, cmp_(rn["op"], opd(E_RM, rn["l"], RN), opd(E_RM, rn["r"], RN)),
+              RC, cmp_(rc["a_op"], opd(E_RM, rc["a_l"], RC), opd(E_RM, rc["a_r"], RC)), cmp_(rc["b_op"], opd(E_RM, rc["b_l"], RC), opd(E_RM, rc["b_r"], RC)),
+              RI, cmp_(ri["a_op"], opd(E_RM, ri["a_l"], RI), opd(E_RM, ri["a_r"], RI)), cmp_(ri["b_op"], opd(E_RM, ri["b_l"], RI), opd(E_RM, ri["b_r"], RI)),
+              RP, cmp_(rp["a_op"], opd(E_RM, rp["a_l"], RP), "x"), cmp_(rp["b_op"], opd(E_RM, rp["b_l"], RP), "x"),
+              RNZ, cmp_(nz["a_op"], opd(E_RS, nz["a_l"], RNZ), opd(E_RS, nz["a_r"], RNZ)), CMP[nz["b_op"]], opd(E_RS, nz["b_l"], RNZ),
+              opd(E_RS, nz["b_r"], RNZ), opd(E_RS, nz["m_l"], RNZ), opd(E_RS, nz["m_r"], RNZ)))
+sites.append(("g_range_new, g_contains, g_intersects,", RMN + "(%s)" % cands[0].split("/registry/src/")[-1]))
+sites.append(("g_range_cmp_pt, g_norm_step", RMN + "Range::{new, contains, intersects, partial_cmp}, RangeMap::{normalize}; try_from_iter, get pinned"))
+
 # ============================================================================ output
 out = """(* GENERATED by translate/c08_tables.py from minidump-common/src/traits.rs, breakpad-symbols/src/sym_file/{parser,types}.rs
    and minidump/src/minidump.rs — do not edit.
@@ -454,13 +527,12 @@ Open Scope Z_scope.
 
 Definition PANIC_G_RANGE_NEW : Z := 831.   (* range_map::Range::new: "Ranges must be ordered" *)
 Definition PANIC_G_MR_ARITH : Z := 832.    (* the `- 1` of a memory_range() (debug builds trap) *)
-Definition g_range_new (s e : Z) : outcome range := if s >? e then Panic PANIC_G_RANGE_NEW else Ret (s, e).
-
+%s
 %s
 (* the index-valued builders (from_modules / from_regions x4): (entry.memory_range(), index) pairs in vector order *)
 Definition g_build_indexed (ranges : list (option range)) : outcome (list (range * Z)) :=
   g_build_traits Z.eqb (enumerate_from 0 ranges).
-""" % ("\n".join("   %-40s <- %s" % x for x in sites), "\n".join(defs))
+""" % ("\n".join("   %-40s <- %s" % x for x in sites), rm_defs, "\n".join(defs))
 os.makedirs(outdir, exist_ok=True)
 path = os.path.join(outdir, "C08Tables.v")
 try:
